@@ -21,7 +21,9 @@ RULE = ("enumerated: X,Y,Z,H,K,S,T on every virtual qubit 0..3; rot_x/y/z for al
         "ids 0..3; MOV both directions for every carbon; both debug settings; a scratch-register scenario with two "
         "carbon-carbon gates around a register write; published matrices of every vanilla/NV class (all n x d for "
         "rotations in the thorough tier). A case groups the 256 numerators of one (axis, d, qubit, mode); "
-        "'rotations_checked' counts the individual (n, d) unitaries. Non-trivial = every case (each compares at least "
+        "'rotations_checked' counts the individual (n, d) unitaries."
+        ' Every other transpiled sequence is executed as a node receives it (bytes -> NV decoder). '
+        "Non-trivial = every case (each compares at least "
         "one non-identity operator); distinct = distinct case description.")
 ASSUMPTIONS = ["R-QUANTUM conventions: R_a(t) = exp(-i t sigma_a / 2); crot_a(t) = |0><0| (x) R_a(t) + |1><1| (x) R_a(-t), control first",
                "MOV is judged as state transfer onto a target in |0>; the source's final state is not specified",
